@@ -41,9 +41,9 @@ theorem C08_protocol (cx : Ctx) (n i : Nat) (nd : Node) (a : AMode) (m : RMode) 
        | .thr _, _ => tail = (if cx.unwind then [Ev.unwind i (cx.rep r0.st.cur)] else []) ∧ r.res = r0.res
        | .fail, _ => tail = [Ev.failure i (cx.rep r0.st.cur)] ∧ r.res = .fail
        | .ok, .noAction => tail = [Ev.success i (cx.rep r0.st.cur)] ∧ r.res = .ok
-       | .ok, .accepts => tail = [actEvent cx i (cx.actOf env i nd) st.cur r0.st.cur, Ev.success i (cx.rep r0.st.cur)] ∧ r.res = .ok
-       | .ok, .vetoes => tail = [actEvent cx i (cx.actOf env i nd) st.cur r0.st.cur, Ev.failure i (cx.rep r0.st.cur)] ∧ r.res = .fail
-       | .ok, .throws => tail = actEvent cx i (cx.actOf env i nd) st.cur r0.st.cur ::
+       | .ok, .accepts => tail = [actEvent cx i (cx.actOf env i nd) env.sd st.cur r0.st.cur, Ev.success i (cx.rep r0.st.cur)] ∧ r.res = .ok
+       | .ok, .vetoes => tail = [actEvent cx i (cx.actOf env i nd) env.sd st.cur r0.st.cur, Ev.failure i (cx.rep r0.st.cur)] ∧ r.res = .fail
+       | .ok, .throws => tail = actEvent cx i (cx.actOf env i nd) env.sd st.cur r0.st.cur ::
             (if cx.unwind then [Ev.unwind i (cx.rep r0.st.cur)] else []) ∧
             r.res = .thr (.foreign i (cx.actOf env i nd).throwStd)) := by
   simp only [run, nodeCall, hn, hw, nodeCore, hc, Bool.not_true, Bool.false_eq_true, if_false,
